@@ -17,10 +17,15 @@ import (
 // presented again and must be ignored silently.
 
 type ReplayCase struct {
-	UDP       bool            `json:"udp,omitempty"`
-	NoWait    bool            `json:"noWait,omitempty"`
-	What      int             `json:"what"` // 0 whole client->server stream, 1 prefix ending at a segment boundary, 2 first segment alone, 3 (UDP) everything but the first datagram, 4 (UDP) one datagram alone
-	Sessions  int             `json:"sessions,omitempty"` // genuine sessions multiplexed on the recorded connection / socket (default 1)
+	UDP      bool `json:"udp,omitempty"`
+	NoWait   bool `json:"noWait,omitempty"`
+	What     int  `json:"what"`               // 0 whole client->server stream, 1 prefix ending at a segment boundary, 2 first segment alone, 3 (UDP) everything but the first datagram, 4 (UDP) one datagram alone
+	Sessions int  `json:"sessions,omitempty"` // genuine sessions multiplexed on the recorded connection / socket (default 1)
+	// Cross: the server listens on both transports (same port, as in the
+	// documented port bindings) and the copy is presented on the OTHER transport:
+	// recorded datagrams are written to a TCP connection one by one, a
+	// recorded TCP segment is sent as one datagram.
+	Cross     bool            `json:"cross,omitempty"`
 	Boundary  int             `json:"boundary,omitempty"`
 	DelayMs   int             `json:"delayMs,omitempty"`
 	AfterEnd  bool            `json:"afterEnd,omitempty"` // the original session is closed before the replay
@@ -61,11 +66,21 @@ func genReplay(t *rapid.T) ReplayCase {
 	c.ClientPat = e2e.GenPattern(t, "cp", 1)
 	c.ServerPat = e2e.GenPattern(t, "sp", 1)
 	c.Salt = rapid.Uint64().Draw(t, "salt")
+	if rapid.IntRange(0, 3).Draw(t, "cross") == 0 {
+		c.Cross = true
+		if rapid.Bool().Draw(t, "crossLE") {
+			// a low-entropy client never piggybacks data on its open request, so
+			// the request is metadata only
+			m := int32(rapid.IntRange(1, 4).Draw(t, "crossLEMode"))
+			c.ClientPat.Nil = false
+			c.ClientPat.HasLE, c.ClientPat.LEMode = true, &m
+		}
+	}
 	return c
 }
 
 func propReplay(c ReplayCase) (o pbt.Outcome) {
-	cfg := e2e.Config{UDP: c.UDP, NoWait: c.NoWait, ClientPattern: c.ClientPat, ServerPattern: c.ServerPat}
+	cfg := e2e.Config{UDP: c.UDP, NoWait: c.NoWait, ClientPattern: c.ClientPat, ServerPattern: c.ServerPat, BothTransports: c.Cross}
 	nSess := c.Sessions
 	if nSess < 1 {
 		nSess = 1
@@ -180,10 +195,33 @@ func propReplay(c ReplayCase) (o pbt.Outcome) {
 	attackerIP := net.IPv4(10, 77, 0, 9)
 	var links []*simnet.Link
 	var addrs []string
+	// which transport carries the copy
+	copyOverTCP := !c.UDP
+	if c.Cross {
+		copyOverTCP = c.UDP
+		if c.UDP {
+			// datagrams, one after the other, as a byte stream
+			tcpCopy = nil
+			for _, d := range udpCopy {
+				tcpCopy = append(tcpCopy, d...)
+			}
+		} else {
+			// the recorded stream up to the chosen boundary as single datagrams:
+			// the first segment alone, and the whole copy
+			segsRaw, _, _ := refproto.DecodeStream(tcpCopy, keys)
+			udpCopy = nil
+			if len(segsRaw) > 0 {
+				udpCopy = append(udpCopy, tcpCopy[:segsRaw[0].Ext.End])
+			}
+			if len(tcpCopy) <= 1500 {
+				udpCopy = append(udpCopy, tcpCopy)
+			}
+		}
+	}
 	for i := 0; i < c.Times; i++ {
-		if !c.UDP {
+		if copyOverTCP {
 			src := attackerIP
-			if c.SameIP {
+			if c.SameIP && clientIP != nil {
 				src = clientIP
 			}
 			conn, link, err := sn.DialLinkFrom("10.0.0.1:7000", src)
@@ -227,7 +265,7 @@ func propReplay(c ReplayCase) (o pbt.Outcome) {
 	}
 	for _, l := range links {
 		if n := l.BytesS2C(); n != 0 {
-			o.Failf("reply-tcp", "the server wrote %d bytes in reply to a byte-exact copy (%d bytes, what=%d) of traffic it had already accepted", n, len(tcpCopy), c.What)
+			o.Failf("reply-tcp", "the server wrote %d bytes in reply to a byte-exact copy (%d bytes, what=%d, recorded on the other transport: %v) of traffic it had already accepted", n, len(tcpCopy), c.What, c.Cross)
 			return
 		}
 	}
@@ -235,7 +273,7 @@ func propReplay(c ReplayCase) (o pbt.Outcome) {
 	for _, d := range dgrams {
 		for _, a := range addrs {
 			if d.To.String() == a {
-				o.Failf("reply-udp", "the server sent a %d-byte datagram to %s in reply to replayed datagrams", len(d.Data), a)
+				o.Failf("reply-udp", "the server sent a %d-byte datagram to %s in reply to replayed datagrams (recorded on the other transport: %v)", len(d.Data), a, c.Cross)
 				return
 			}
 		}
@@ -249,6 +287,7 @@ func propReplay(c ReplayCase) (o pbt.Outcome) {
 	o.Label("what=%d", c.What)
 	o.Label("afterEnd=%v", c.AfterEnd)
 	o.Label("sessions=%d", nSess)
+	o.Label("crossTransport=%v", c.Cross)
 	o.Label("afterCleanup=%v", c.AfterEnd && c.DelayMs > 5000)
 	o.Label("fresh=%v", c.Fresh)
 	o.Label("delay>=300=%v", c.DelayMs >= 300)
